@@ -388,12 +388,13 @@ func (x *TopicsIndex) InlineUnsubscribe(id int, filter string) bool {
 		return false
 	}
 
+	_, existed := particle.inlineSubscriptions.Get(id)
 	particle.inlineSubscriptions.Delete(id)
 
 	if particle.inlineSubscriptions.Len() == 0 {
 		x.trim(particle)
 	}
-	return true
+	return existed
 }
 
 // Subscribe adds a new subscription for a client to a topic filter, returning
@@ -436,15 +437,18 @@ func (x *TopicsIndex) Unsubscribe(filter, client string) bool {
 		return false
 	}
 
+	var existed bool
 	if shareSub {
 		group, _ := isolateParticle(filter, 1)
+		_, existed = particle.shared.Get(group, client)
 		particle.shared.Delete(group, client)
 	} else {
+		_, existed = particle.subscriptions.Get(client)
 		particle.subscriptions.Delete(client)
 	}
 
 	x.trim(particle)
-	return true
+	return existed
 }
 
 // RetainMessage saves a message payload to the end of a topic address. Returns
